@@ -121,7 +121,7 @@ def F_derived(a, inner):
 
 
 def F_derived_noas(a, inner):
-    return [J("first", Der(inner(a), alias=a.d(), as_kw=False))], [Item(Col(0, "ca"))]
+    return [J("first", Der(inner(a), alias=a.d(), as_kw=False))], [Item(Col(0, "ca")), Item(Col(0, "cb"))]
 
 
 def F_join_derived(a, inner):
